@@ -324,3 +324,169 @@ func TestVerifReplay(t *testing.T) {
 `
 	return "kvstore", ".", src, true
 }
+
+// ---------- C06 ----------
+// Obligations of TypedValue/TypedStore quantify over every failure position of codec and store
+// calls; the replay runs a differential fault-injection test of the real TypedValue against a
+// plain model (raw bytes of the key under the codec) with each single call failing in turn.
+
+func init() { replayGens["c06"] = replayC06 }
+
+func replayC06(o *Obligation) (string, string, string, bool) {
+	if !strings.HasPrefix(o.Name, "kvstore.TypedValue.") && !strings.HasPrefix(o.Name, "kvstore.TypedStore.") {
+		return "", "", "", false
+	}
+	src := `package kvstore_test
+
+import (
+	"encoding/binary"
+	"errors"
+	"testing"
+
+	"github.com/iotaledger/hive.go/ierrors"
+	"github.com/iotaledger/hive.go/kvstore"
+	"github.com/iotaledger/hive.go/kvstore/mapdb"
+)
+
+type faultStore struct {
+	kvstore.KVStore
+	calls, failAt int
+}
+
+func (f *faultStore) tick() error {
+	f.calls++
+	if f.calls == f.failAt {
+		return errors.New("injected failure")
+	}
+	return nil
+}
+func (f *faultStore) Get(k kvstore.Key) (kvstore.Value, error) {
+	if err := f.tick(); err != nil {
+		return nil, err
+	}
+	return f.KVStore.Get(k)
+}
+func (f *faultStore) Has(k kvstore.Key) (bool, error) {
+	if err := f.tick(); err != nil {
+		return false, err
+	}
+	return f.KVStore.Has(k)
+}
+func (f *faultStore) Set(k kvstore.Key, v kvstore.Value) error {
+	if err := f.tick(); err != nil {
+		return err
+	}
+	return f.KVStore.Set(k, v)
+}
+func (f *faultStore) Delete(k kvstore.Key) error {
+	if err := f.tick(); err != nil {
+		return err
+	}
+	return f.KVStore.Delete(k)
+}
+
+// ops: S<n> set n, D delete, G get, H has, C compute(+1), N compute(not changed), E compute(error), R re-open (new TypedValue, empty cache)
+func TestVerifReplay(t *testing.T) {
+	scripts := [][]string{{"C"}, {"S1", "C", "G"}, {"S1", "D", "C", "G"}, {"G", "S2", "G", "H"}, {"H", "S3", "D", "H", "G"}, {"S1", "N", "E", "G"}, {"S4", "G", "C", "C", "G"}, {"D", "G", "S5", "G"},
+		{"S1", "R", "G", "H", "G"}, {"S2", "R", "H", "G", "C", "G"}, {"S3", "R", "G", "G", "C"}, {"S1", "R", "C", "R", "G"}}
+	for _, sc := range scripts {
+		for failAt := 0; failAt < 12; failAt++ {
+			store := &faultStore{KVStore: mapdb.NewMapDB(), failAt: failAt}
+			f := store
+			enc := func(v uint64) ([]byte, error) {
+				if err := f.tick(); err != nil {
+					return nil, err
+				}
+				b := make([]byte, 8)
+				binary.LittleEndian.PutUint64(b, v)
+				return b, nil
+			}
+			dec := func(b []byte) (uint64, int, error) {
+				if err := f.tick(); err != nil {
+					return 0, 0, err
+				}
+				if len(b) != 8 {
+					return 0, 0, errors.New("bad length")
+				}
+				return binary.LittleEndian.Uint64(b), 8, nil
+			}
+			key := []byte("k")
+			tv := kvstore.NewTypedValue[uint64](store, key, enc, dec)
+			// model: raw contents of the key
+			var mHas bool
+			var mVal uint64
+			check := func(step int, what string) {
+				raw, err := store.KVStore.Get(key)
+				has := err == nil
+				if has != mHas || (has && (len(raw) != 8 || binary.LittleEndian.Uint64(raw) != mVal)) {
+					t.Fatalf("REPLAY-VIOLATION TypedValue script %v failAt %d step %d (%s): store holds (%v,%x) but the last successfully written value is (%v,%d)", sc, failAt, step, what, has, raw, mHas, mVal)
+				}
+			}
+			for i, op := range sc {
+				switch op[0] {
+				case 'S':
+					v := uint64(op[1] - '0')
+					if err := tv.Set(v); err == nil {
+						mHas, mVal = true, v
+					}
+				case 'R':
+					tv = kvstore.NewTypedValue[uint64](store, key, enc, dec)
+				case 'D':
+					if err := tv.Delete(); err == nil {
+						mHas = false
+					}
+				case 'G':
+					v, err := tv.Get()
+					if err == nil && (!mHas || v != mVal) {
+						t.Fatalf("REPLAY-VIOLATION TypedValue script %v failAt %d step %d: Get returned %d but the key holds (%v,%d)", sc, failAt, i, v, mHas, mVal)
+					}
+					if err != nil && mHas && failAt == 0 {
+						t.Fatalf("REPLAY-VIOLATION TypedValue script %v step %d: Get failed (%v) on a healthy store holding %d", sc, i, err, mVal)
+					}
+					if !mHas && err == nil {
+						t.Fatalf("REPLAY-VIOLATION TypedValue script %v failAt %d step %d: Get succeeded on a missing key", sc, failAt, i)
+					}
+				case 'H':
+					h, err := tv.Has()
+					if err == nil && h != mHas {
+						t.Fatalf("REPLAY-VIOLATION TypedValue script %v failAt %d step %d: Has returned %v, key present %v", sc, failAt, i, h, mHas)
+					}
+				case 'C', 'N', 'E':
+					before := store.calls
+					var computed uint64
+					called := false
+					nv, err := tv.Compute(func(cur uint64, exists bool) (uint64, error) {
+						called = true
+						if exists != mHas || (exists && cur != mVal) {
+							t.Fatalf("REPLAY-VIOLATION TypedValue script %v failAt %d step %d: compute saw (%d,%v), key holds (%v,%d)", sc, failAt, i, cur, exists, mHas, mVal)
+						}
+						switch op[0] {
+						case 'N':
+							return 0, kvstore.ErrTypedValueNotChanged
+						case 'E':
+							return 0, errors.New("compute failed")
+						}
+						computed = cur + 1
+						return computed, nil
+					})
+					injected := failAt > before && failAt <= store.calls
+					if err == nil && op[0] == 'C' && called {
+						if injected {
+							// a call failed during this Compute, yet no error was reported
+							t.Fatalf("REPLAY-VIOLATION TypedValue script %v failAt %d step %d: a codec/store call failed inside Compute but Compute returned (%d, nil)", sc, failAt, i, nv)
+						}
+						mHas, mVal = true, computed
+					}
+					if op[0] == 'E' && called && err == nil {
+						t.Fatalf("REPLAY-VIOLATION TypedValue script %v step %d: compute error swallowed", sc, i)
+					}
+					_ = ierrors.Is
+				}
+				check(i, op)
+			}
+		}
+	}
+}
+`
+	return "kvstore", ".", src, true
+}
